@@ -18,6 +18,8 @@ import TdVerif.Model.C04Tree
 import TdVerif.Model.C04Spec
 import TdVerif.Lemmas.C04
 import TdVerif.Lemmas.C04Roundtrip
+import TdVerif.Lemmas.C04Split
+import TdVerif.Lemmas.C04Views
 
 namespace TdVerif.Props.C04
 open TdVerif TdVerif.Key TdVerif.C04
@@ -231,11 +233,22 @@ theorem update_refines (items : List (Path × Entry)) (kids : Kids) :
     okU (updateF (updFuel items) items (.node kids)).2 = okU (specUpdate items (.node kids)).2 :=
   updateF_spec (updFuel items) items kids (Nat.le_refl _)
 
+/-- `split_keys(*key_sets, inplace, strict)`: for every state and every list of key sets (keys that are prefixes of one
+another, repeated or missing keys included) popping each key from the running remainder and setting it in a fresh
+tensordict per key set, then dropping the empty nested tensordicts of the remainder, equals the same moves on plain dicts
+(`specSplit`: `v = last.pop(p[, None]); out[p] = v`) — same outputs, same remainder, the same calls refused, and a
+refused call changes nothing. Side condition: strict, or no key runs through a NonTensorData (outside the model). -/
+theorem split_refines (sets : List (List Path)) (inplace strict : Bool) (kids : Kids) (hw : WF (.node kids))
+    (hs : strict = true ∨ ∀ ks ∈ sets, ∀ p ∈ ks, throughNt p (.node kids) = false) :
+    (splitT sets inplace strict (.node kids)).1 = (specSplit sets inplace strict (.node kids)).1 ∧
+    (splitT sets inplace strict (.node kids)).2.erase = (specSplit sets inplace strict (.node kids)).2.erase :=
+  splitT_refines sets inplace strict _ hw hs
+
 /-- One step. FULL STATEMENT (not yet proved for every operation):
       ∀ op, InScope t op → step t op ≈ dstep t op      with `dstep` defined for all thirteen operations.
     Proved here for set / del / pop / rename_key_ / setdefault / clear / empty / unflatten_keys (in place and out of
-    place) / flatten_keys (in place and out of place) / exclude (in place and out of place) / update.
-    (`InScope` is `False` for select and split_keys: their transcriptions are tied to the code by
+    place) / flatten_keys (in place and out of place) / exclude (in place and out of place) / update / split_keys.
+    (`InScope` is `False` for select: its transcription is tied to the code by
     the correspondence run and judged by the Python dict oracle; select is characterised separately by
     `select_leaves_exact` / `select_inplace_agrees`, which speak about leaves rather than about the whole state because a
     non-strict select keeps empty nested tensordicts for keys whose tails are all missing). -/
@@ -282,7 +295,7 @@ theorem refines_partial (kids : Kids) (hw : WF (.node kids)) (op : Op) (hs : InS
       simp only [step, dstep, if_true, flattenIn_eq sep kids hw]
       by_cases hn : (flatNames sep (.node kids)).Nodup <;> simp [hn, Out.erase]
   | unflatten sep inplace => exact unflatten_refines sep inplace kids hw
-  | split _ _ _ => exact absurd hs (by simp [InScope])
+  | split sets inplace strict => exact splitT_refines sets inplace strict _ hw hs
 
 /-- the replay keeps the state a well-formed node (so the refinement can be chained) -/
 theorem dstep_good (kids : Kids) (hw : WF (.node kids)) (op : Op) (hs : InScope (.node kids) op) :
@@ -396,7 +409,7 @@ theorem dstep_good (kids : Kids) (hw : WF (.node kids)) (op : Op) (hs : InScope 
       rw [h] at hk'; simp only at hk'; subst hk'
       cases inplace <;> cases o <;> simp
       all_goals (first | exact ⟨kids', rfl, hw'⟩ | exact ⟨kids, rfl, hw⟩ | exact hw' | exact hw)
-  | split _ _ _ => exact absurd hs (by simp [InScope])
+  | split sets inplace strict => exact specSplit_good sets inplace strict kids hw hs
 
 /-- Histories of any length: the transcribed code and the plain nested dict stay in the same state.
 (`_partial`: over the core operations, see `refines_partial`.) -/
@@ -429,8 +442,7 @@ theorem select_leaves_exact (keys : List Path) (strict inplace : Bool) (kids : K
   exact select_leaves (maxLen keys) keys strict kids r (fun p hp => ⟨hk p hp, le_maxLen hp⟩) h'
 
 /-- in place and out of place compute the same selection; a successful `select(inplace=True)` leaves the receiver equal to
-that selection, `select(inplace=False)` never touches the receiver (the partial pruning of a *raising* in-place call is the
-known finding below). -/
+that selection, `select(inplace=False)` never touches the receiver (and a *raising* in-place call changes nothing: `select_inplace_atomic`). -/
 theorem select_inplace_agrees (keys : List Path) (strict : Bool) (t : Entry) (n : Nat) :
     (selectF n keys strict true t).2 = (selectF n keys strict false t).2 ∧
     (∀ r, (selectF n keys strict true t).2 = .ok r → (selectF n keys strict true t).1 = r) ∧
@@ -441,15 +453,30 @@ example : (selectF 3 [["a"], ["a", "b"]] true false (.node [("a", .node [("b", .
     = .ok (.node [("a", .node [("b", .leaf false 1), ("c", .leaf false 2)])]) := by
   simp [selectF, selectScan, selectGroups, groupAdd, dget, dset]
 
-/-- KNOWN FINDING C04-select-inplace-not-atomic (negation witness, replayed on the implementation by the
-check): a raising `select(("a","x"), ("b","missing"), inplace=True)` has already pruned `("a","y")`.
-FULL STATEMENT that is false of the code: `(selectT keys strict true t).2 = .err e → (selectT keys strict true t).1 = t`. -/
-theorem select_inplace_atomic_counterexample :
+/-- `select(*keys, inplace=True)` (repaired; the former known finding C04-select-inplace-not-atomic) is atomic: a call that
+raises — a missing key with `strict=True`, a key running through a tensor — leaves the receiver exactly as it was, for every
+state and every list of keys (the nested tensordicts used to be pruned one after the other before a later key was refused). -/
+theorem select_inplace_atomic (keys : List Path) (strict : Bool) (t : Entry) (e : Err)
+    (h : (selectT keys strict true t).2 = .err e) : (selectT keys strict true t).1 = t := by
+  simp only [selectT, if_true] at h ⊢
+  cases hd : (selectF (maxLen keys + 1) keys strict false t).2 with
+  | error e' => simp
+  | ok r =>
+    have hag := (selectF_inplace (maxLen keys + 1) keys strict t).1
+    rw [hd] at hag h
+    simp only at h ⊢
+    cases hin : selectF (maxLen keys + 1) keys strict true t with
+    | mk t' o =>
+      rw [hin] at hag h
+      simp only at hag
+      subst hag
+      simp at h
+
+/-- the former counter-example: the refused call no longer prunes `("a","y")` -/
+example :
     let t := Entry.node [("a", .node [("x", .leaf false 1), ("y", .leaf false 2)]), ("b", .node [("z", .leaf false 3)])]
-    (∃ e, (selectT [["a", "x"], ["b", "missing"]] true true t).2 = .err e) ∧
-    lookup ["a", "y"] (selectT [["a", "x"], ["b", "missing"]] true true t).1 = none ∧
-    lookup ["a", "y"] t = some (.leaf false 2) := by
-  simp [selectT, maxLen, selectF, selectGroups, selectScan, groupAdd, dget, dset, lookup]
+    selectT [["a", "x"], ["b", "missing"]] true true t = (t, .err .key) := by
+  simp [selectT, maxLen, selectF, selectGroups, selectScan, groupAdd, dget, dset]
 
 /-! ## §4b flatten_keys -/
 
@@ -648,6 +675,16 @@ theorem views_keys_items_agree (lo srt nt : Bool) (kids : Kids) (hw : WF (.node 
 theorem views_sort_perm (inc lo nt : Bool) (t : Entry) :
     (keysView ⟨inc, lo, true, nt⟩ t).Perm (keysView ⟨inc, lo, false, nt⟩ t) := by
   simp only [keysView, if_true, Bool.false_eq_true, if_false]; exact sortBy_perm _ _
+
+/-- `keys(..., sort=True)` / `items(..., sort=True)` are ordered by `".".join(key)` (code-point order of the joined names),
+for every flag combination — together with `views_sort_perm`: the sorted view is THE ordered rearrangement of the plain
+view (up to the order of entries with equal joined names, e.g. `("a", "b")` and `"a.b"`). -/
+theorem views_sorted (inc lo nt : Bool) (t : Entry) :
+    (keysView ⟨inc, lo, true, nt⟩ t).Pairwise (fun a b => joinKey a ≤ joinKey b) ∧
+    (itemsView ⟨inc, lo, true, nt⟩ t).Pairwise (fun a b => joinKey a.1 ≤ joinKey b.1) := by
+  constructor
+  · simp only [keysView, if_true]; exact sortBy_sorted _ _
+  · simp only [itemsView, if_true]; exact sortBy_sorted _ _
 
 /-- membership test and iteration agree: `key in td.keys(True)` iff the key is listed by `td.keys(True)` -/
 theorem contains_iff_listed (kids : Kids) (hw : WF (.node kids)) (q : Path) (hq : q ≠ []) :
